@@ -94,4 +94,35 @@ def lossy : List (Ev Bool) :=
    .poll { descrOk := true, rd := false, wr := true, er := false, now := 3, soErr := false, onConnDisc := false,
            sends := [.ret 100], recvs := [] }]
 
+
+/-- a decoder that, like `zlib.decompress` / `pickle.loads`, looks at the beginning of the payload and ignores
+whatever follows -/
+def lenient : Cfg Bool :=
+  { enc := fun m => [if m then 1 else 0]
+    dec := fun p => match p.head? with
+      | some 1 => some true
+      | some 0 => some false
+      | _ => none
+    cbDisc := fun _ => false
+    timeout := 10 }
+
+/-- the frames of `[true, false, true]`, the first length field raised from 1 to 1 + 4 + 1 (one whole frame more) -/
+def overrun : Bytes := [6, 0, 0, 0, 1, 1, 0, 0, 0, 0, 1, 0, 0, 0, 1]
+
+/-- a strict decoder: exactly one byte -/
+theorem cfgStrict : StrictDec cfg := by
+  intro p x m h hx
+  cases p with
+  | nil => simp [cfg] at h
+  | cons b t =>
+    cases t with
+    | nil =>
+      cases x with
+      | nil => exact absurd rfl hx
+      | cons y ys => simp [cfg]
+    | cons b' t' => simp [cfg] at h
+
+/-- frame of `true` with the length field raised by one, then the frame of `false` -/
+def readsOver : List (Nat × List Bytes) := [(1, [[2, 0, 0, 0, 1, 1]]), (2, [[0, 0, 0, 0]])]
+
 end PSO.Framing.Ex
